@@ -161,20 +161,20 @@ type vfC16Rec struct {
 // ---------------------------------------------------------------- world
 
 type vfC16World struct {
-	sc      *vfC16Scenario
-	names   *vfC16Names
-	cl      *vfCluster
-	nodes   map[string]*vfNode // by abstract address
-	dialer  *vfDialer
-	s       *Session
-	peersQ  int64 // system.peers queries seen by the control node
-	served  sync.Map
-	qseq    int64
-	filt    map[string]bool
-	cut      []*Conn // connections the current step has cut from the node side: quiescence needs the driver to have noticed
-	mismatch bool // a step ended in a state other than the one that came with the history
-	stalled  bool // the session was still busy at the hard limit of a wait
-	debounced int32 // direct mode: a debounced ring refresh has been requested
+	sc        *vfC16Scenario
+	names     *vfC16Names
+	cl        *vfCluster
+	nodes     map[string]*vfNode // by abstract address
+	dialer    *vfDialer
+	s         *Session
+	peersQ    int64 // system.peers queries seen by the control node
+	served    sync.Map
+	qseq      int64
+	filt      map[string]bool
+	cut       []*Conn // connections the current step has cut from the node side: quiescence needs the driver to have noticed
+	mismatch  bool    // a step ended in a state other than the one that came with the history
+	stalled   bool    // the session was still busy at the hard limit of a wait
+	debounced int32   // direct mode: a debounced ring refresh has been requested
 	rr        *roundRobinHostPolicy
 	spawns    int64 // successful pool connects (each one starts a handleNodeConnected goroutine)
 	hostUps   int64 // HostUp calls that reached the policy (end of handleNodeConnected)
